@@ -50,6 +50,8 @@ pub const SESSIONS: &[(&str, &str)] = &[
     ("wide_cells", "wide := mut int|float 5\nnarrow := mut 5\nanyc := mut any 1\nread_wide := (c: mut (int|float)) -> int|float { return *c }\nread_wide(wide)\nread_narrow := (c: mut int) -> int { return *c + 1 }\nread_narrow(narrow)\nread_any := (c: mut any) -> any { return *c }\nread_any(anyc)\nput := (c: mut (int|float), v: float) -> float { return c = v }\nput(wide, 2.5)\n(*wide, *narrow, *anyc)"),
     ("nan_self_compare", "z := mut 0.0\nx := *z / *z\nx == x\nx != x\ny := [x, 1.0]\ny == y\nt := (x, \"s\")\nt != t\nk := 5\n(k == k, k != k, x == x, [x] == [x])"),
     ("known_index_effects", "c := mut 0\nbump := () -> int { c += 1; return *c }\ni := *c\nv := [bump(), bump()][i]\nn := *c\n(v, n)\nj := 1\nw := [bump(), bump(), bump()][j]\n(w, *c)\nt := (bump(), bump()).0\n(t, *c)\ns := struct{a := bump(), b := bump()}.a\n(s, *c)"),
+    ("known_constant_loops", "g := (n: int) -> bool { return n > 3 }\nc := g(1)\nd := g(5)\nx := mut 0\nwhile c { x += 1; break }\n*x\nwhile d { x += 10; break }\n*x\nr := c || d\nr2 := d && c\n(r, r2)\nif c { x += 100 } else { x += 1000 }\n*x\ny := if d { 1 } else { 2 }\n(y, *x)"),
+    ("filter_helper_names", "default := 7\niterator := 5\nf := [1, 2.0, 3]~ ? int\ndefault\nf()\n(default, iterator)\ng := [\"a\", 1]~ ? string\nrest := g $]\n(default, iterator, rest)"),
     ("own_name_param", "f := (f: int, g: int) -> int { return f + g }\nf(1, 2)\ng := (x: int) -> int { g := x + 1; return g }\ng(1)\ng(2)"),
 ];
 
